@@ -236,7 +236,7 @@ func c16Collect(p *ana.Prog, r *ana.Result, cm *ssa.Function) {
 				continue
 			}
 			incSeen := func(in ssa.Instruction) bool { return in == ssa.Instruction(inc) }
-			s := &ana.Search{Fn: cm, NoFacts: true, Stop: incSeen, Target: func(in ssa.Instruction) bool {
+			s := &ana.Search{Fn: cm, Stop: incSeen, Target: func(in ssa.Instruction) bool {
 				if in.Block() == header {
 					return true
 				}
@@ -801,5 +801,5 @@ func c16Caller(p *ana.Prog, r *ana.Result) {
 			}
 		}
 	}
-	r.Floor("C16.deadline.callers", n, 2)
+	r.Floor("C16.deadline.callers", n, 1) // two on the pinned tree; one when both rounds share a parameterised goroutine body
 }
